@@ -764,16 +764,25 @@ Module EnvClassify.
     else if String.eqb m "env" || String.eqb m "*env" then
            match args with k :: _ => of_key k | [] => MEO.SrcUnknown end
     else MEO.SrcUnknown.
+  (* the first call that writes a variable *)
+  Definition first_writer (calls : list (string * list string)) : option string :=
+    match filter (fun c => match of_call c with MEO.SrcNeutral => false | _ => true end) calls with
+    | (m, _) :: _ => Some m
+    | [] => None
+    end.
+  Definition config_env_call : string := "apply_env".
 End EnvClassify.
 (* TestCommand::new, the calls it makes on the Command in order (apply_package_env followed), regenerated from the source:
    whether or not the package has a build-script output directory ([c]: the condition of that `if` is an input), every
-   call is one the model knows, every user / build source comes before every source of nextest's own, and both kinds
-   occur (the [env] table first). *)
+   call is one the model knows, every user / build source comes before every source of nextest's own, both kinds
+   occur, and the [env] table of the cargo configuration is applied first of all (so that OUT_DIR and the build
+   script's variables win over it, like nextest's own). *)
 Lemma gen_env_order_is_model :
   forall c,
     let sources := map EnvClassify.of_call (G.test_command_env c) in
     MEO.all_classified sources = true /\
     MEO.user_before_nextest sources = true /\
     existsb MEO.is_user sources = true /\
-    existsb (fun s => match s with MEO.SrcNextest => true | _ => false end) sources = true.
+    existsb (fun s => match s with MEO.SrcNextest => true | _ => false end) sources = true /\
+    EnvClassify.first_writer (G.test_command_env c) = Some EnvClassify.config_env_call.
 Proof. intros c. destruct c; vm_compute; repeat split; reflexivity. Qed.
